@@ -97,3 +97,20 @@ Definition pde_case_form (xdep : bool) (T A0 : mat) (cs : list Qc) (b0 : vec) (x
 (* every operator the case assembles (one per input column, listed by the harness) is certified invertible *)
 Definition pde_ops_ok (n : nat) (xdep : bool) (T : mat) (xs : list vec) : bool :=
   if xdep then forallb (fun x => inv_ok n (pde_xop T x)) xs else inv_ok n T.
+
+(* a Samples input: _apply_func calls the forward callable once per column on the SAME PDE object, in order *)
+Fixpoint pde_forward_columns (P : pde) (slv : mat -> vec -> vec) (st : pde_state) (cols : list vec)
+  : list (res vec) * pde_state :=
+  match cols with
+  | [] => ([], st)
+  | x :: r => let '(y, st1) := pde_forward_func P slv st x in
+              let '(ys, st2) := pde_forward_columns P slv st1 r in (y :: ys, st2)
+  end.
+
+(* checker: the right-hand side the PDE object holds after a Samples input went through it (that of the LAST column) *)
+Definition check_pde_state (tol : bool) (n : nat) (xdep : bool) (T A0 : mat) (cs : list Qc) (b0 : vec)
+           (cols : list vec) (obs_rhs : list Q) : bool :=
+  match snd (pde_forward_columns (mkPde (pde_case_form xdep T A0 cs b0) None) (model_solve n) None cols) with
+  | Some (_, rhs) => if tol then qcl_close tol9 (qvec obs_rhs) rhs else qcl_eqb rhs (qvec obs_rhs)
+  | None => match cols with [] => true | _ => false end
+  end.
